@@ -27,6 +27,7 @@ STR_SHIMS = [
     ("ends_with", "shim_str_ends_with_char", lambda a: a.startswith("'")),
     ("ends_with", "shim_str_ends_with_chars", lambda a: a.startswith("[")),
     ("split_once", "shim_str_split_once_char", lambda a: a.startswith("'")),
+    ("split_once", "shim_str_split_once_str", lambda a: a.startswith('"')),
     ("rsplit_once", "shim_str_rsplit_once_char", lambda a: a.startswith("'")),
     ("strip_prefix", "shim_str_strip_prefix_char", lambda a: a.startswith("'")),
     ("char_indices", "shim_char_indices", lambda a: a == ""),
